@@ -30,7 +30,7 @@ def report(prop, tier, seed, mod, results, wall, write=True):
             tot[k] += st.get(k, 0)
         paths += r.get('paths', 0)
         obligations += r.get('obligations', 0)
-        nontrivial += r.get('nontrivial', 0)
+        nontrivial += r.get('symbolic_goals', 0) if meta.get('count') == 'symbolic' else r.get('nontrivial', 0)
         vac += r.get('vacuity', 0)
         feas += r.get('feas_queries', 0)
         safety += r.get('safety', 0)
